@@ -218,7 +218,7 @@ Proof.
   assert (LOOK : forall n' t' c', tget (a_thmap a) n' t' = Some c' -> (ns_eqb n n' && N.eqb t t' = false) -> c' <> c).
   { intros n' t' c' H NT E. subst. destruct OW as [_ O2]. destruct (O2 _ _ H) as [-> ->].
     rewrite N.eqb_refl in NT. destruct n; discriminate. }
-  destruct i as [i0 k0 | p i0 k0 e0 c0 t0 my | m c0 my].
+  destruct i as [i0 k0 | p i0 k0 e0 c0 t0 my | m c0 my | ].
   - cbn. auto.
   - (* IAcceptInv *)
     cbn [touches input_cid] in FT, FC. assert (NC : c0 <> c) by congruence.
@@ -324,6 +324,7 @@ Proof.
       destruct (N.eqb their sub && negb (N.eqb iss 0) && N.eqb signer iss) eqn:C; [|cbn; auto].
       cbn [fst]. split; [exact OW|]. cbn [set_conns a_conns]. rewrite cget_rot, CG. cbn [option_map].
       f_equal. eapply rot_rec_id; eauto.
+  - cbn. auto.
 Qed.
 
 Lemma run_frame : forall v is a n t c r d, (v = Fixed \/ Forall ids_agree is) ->
@@ -349,7 +350,7 @@ Proof.
   intros v a i c r AG CG ST FR NR.
   assert (NEWC : forall c0, input_cid i = Some c0 -> c <> c0).
   { intros c0 H E. subst. rewrite (FR _ H) in CG. discriminate. }
-  destruct i as [i0 k0 | p i0 k0 e0 c0 t0 my | m c0 my].
+  destruct i as [i0 k0 | p i0 k0 e0 c0 t0 my | m c0 my | ].
   - cbn. auto.
   - assert (NC : c <> c0) by (apply NEWC; reflexivity). unfold step.
     destruct (new_my v _ my) as [a2|] eqn:NM; cbn [fst].
@@ -427,6 +428,7 @@ Proof.
       destruct (N.eqb their sub && negb (N.eqb iss 0) && N.eqb signer iss) eqn:C; [|cbn; auto].
       cbn [fst set_conns a_conns]. rewrite cget_rot, CG. cbn [option_map].
       f_equal. eapply rot_rec_id; [left; reflexivity|exact NR|exact C].
+  - cbn. auto.
 Qed.
 
 Lemma run_completed_stable : forall v is a c r, (v = Fixed \/ Forall ids_agree is) ->
